@@ -140,7 +140,7 @@ pub fn run(ctx: &Ctx) -> Outcome {
         let small = g2.upto(3);
         text_sets.push(gen::texts(&["k", "K", "\u{212a}", "s", "\u{17f}", "\u{1c4}", "\u{1c5}", "\u{1c6}", "\u{df}", "\u{1e9e}"], 2));
         let set = text_sets.len() - 1;
-        for p in gen::products(&g2.upto(1)).into_iter().chain(small) {
+        for p in gen::products(&g2.upto(1)).into_iter().chain(small).chain(gen::fold_adjacent_family()) {
             items.push((p, set));
         }
     }
